@@ -24,7 +24,8 @@ template <class T> static void run_T(Choice &c, Ctx &cx)
     cx.label(std::string("mode=") + (direct ? "gstrf" : (ilu ? "gsisx" : "gssvx")));
     cx.label("family=" + G.family);
     cx.label(o.tune.stock ? "tuning=stock" : fmt("relax=%d", o.tune.v[2]));
-    vf_case_begin(0xA5);
+    if (cx.is_known("F-SS") && !ilu && maybe_exactly_singular(G)) { cx.exclude("F-SS"); cx.label("exactly-singular(excluded)"); return; }
+    vf_case_begin(cx.fill(0xA5));
     apply_tuning(o.tune);
     FactorShape fs; bool ok = false; bool degenerate = false; long long info = -999;
     if (direct) {
@@ -79,9 +80,9 @@ template <class T> static void run_T(Choice &c, Ctx &cx)
             }
         }
         e.teardown();
-        if (!success) { cx.label("info>0"); vf_purge(); return; }
+        if (!success) { cx.label("singular-return"); vf_purge(); return; }
     }
-    if (info > 0 && !ilu && info <= n) { cx.label("info>0"); ledger_clean(cx, "after singular return"); return; }
+    if (info > 0 && !ilu && info <= n) { cx.label("singular-return"); ledger_clean(cx, "after singular return"); return; }
     if (!ok) { vf_purge(); return; }
     if (!ledger_clean(cx, "after destroying the factors")) return;
     if (degenerate) { cx.skip("overflow-degenerate"); return; }
